@@ -357,6 +357,21 @@ FIRST = hx.sel("VB_FIRST", "")          # partition on the class of the first ch
 _STRUCT = ';= ,"%\t'
 
 
+ALPHA = hx.sel("VB_ALPHA", "")            # non-empty: every character of the string is drawn from this alphabet
+SECOND = hx.sel("VB_SECOND", "")          # partition: the second character (structural-alphabet runs)
+
+
+def _alpha_ok(s):
+    if not ALPHA:
+        return True
+    for c in s:
+        if c not in ALPHA:
+            return False
+    if SECOND and (len(s) < 2 or s[1] != SECOND):
+        return False
+    return True
+
+
 def _first_ok(s):
     if FIRST == "" or len(s) == 0:
         return FIRST in ("", "empty") if len(s) == 0 else FIRST == ""
@@ -393,7 +408,7 @@ def _check_total(s, provided):
 
 def cond_total(s: str, provided: bool) -> bool:
     """
-    pre: len(s) <= SLEN and _first_ok(s)
+    pre: len(s) <= SLEN and _first_ok(s) and _alpha_ok(s)
     post: _
     """
     return _check_total(fixlen(s), provided) is None
@@ -401,7 +416,7 @@ def cond_total(s: str, provided: bool) -> bool:
 
 def reach_total(s: str, provided: bool) -> bool:
     """
-    pre: len(s) <= SLEN and _first_ok(s)
+    pre: len(s) <= SLEN and _first_ok(s) and _alpha_ok(s)
     post: not _
     """
     return _check_total(fixlen(s), provided) is None and len(s) == SLEN
